@@ -127,8 +127,14 @@ void carquet_rle_decoder_init(
     dec->data = data;
     dec->size = size;
     dec->bit_width = bit_width;
-    dec->value_mask = bit_width >= 32 ? ~0U : (1U << bit_width) - 1;
     dec->status = CARQUET_OK;
+    if (bit_width < 0 || bit_width > 32) {
+        /* values are uint32_t: a wider (or negative) width is corrupt input, and the value and
+         * group readers would shift by 32 bits or more */
+        dec->status = CARQUET_ERROR_INVALID_RLE;
+        return;
+    }
+    dec->value_mask = bit_width >= 32 ? ~0U : (1U << bit_width) - 1;
 }
 
 bool carquet_rle_decoder_has_next(const carquet_rle_decoder_t* dec) {
@@ -457,6 +463,10 @@ int64_t carquet_rle_decode_all(
     uint32_t* output,
     int64_t max_values) {
 
+    if (bit_width < 0 || bit_width > 32) {
+        return -1;  /* not a width of uint32_t values */
+    }
+
     carquet_rle_decoder_t dec;
     carquet_rle_decoder_init(&dec, input, input_size, bit_width);
     return carquet_rle_decoder_get_batch(&dec, output, max_values);
@@ -468,6 +478,10 @@ int64_t carquet_rle_decode_levels(
     int bit_width,
     int16_t* output,
     int64_t max_values) {
+
+    if (bit_width < 0 || bit_width > 32) {
+        return -1;  /* not a width of uint32_t values */
+    }
 
     if (max_values <= 0 || input_size == 0) {
         return 0;
@@ -649,6 +663,10 @@ int64_t carquet_rle_decode_levels_prefixed(
 
     int64_t count = carquet_rle_decode_levels(
         input + 4, rle_length, bit_width, output, max_values);
+    if (count < 0) {
+        if (bytes_consumed) *bytes_consumed = 0;
+        return -1;
+    }
 
     if (bytes_consumed) {
         *bytes_consumed = (size_t)4 + rle_length;
